@@ -3,6 +3,7 @@
 //! Everything observed is public API of /repo's crates; panics are caught and
 //! reported as `PANIC <message>`.
 mod k_errtab;
+mod k_mm;
 mod k_queue;
 mod util;
 
@@ -12,6 +13,7 @@ fn dispatch(kind: &str, args: &[&str]) -> String {
     match kind {
         "queue" => k_queue::run(args),
         "errtab" => k_errtab::run(args),
+        "mm" => k_mm::run(args),
         _ => format!("UNKNOWN-KIND {}", kind),
     }
 }
